@@ -23,6 +23,7 @@
 #include "llvm/IR/LLVMContext.h"
 #include "llvm/IR/Operator.h"
 #include "llvm/IR/Constants.h"
+#include "llvm/IR/GlobalAlias.h"
 #include "llvm/IRReader/IRReader.h"
 #include "llvm/Support/SourceMgr.h"
 #include "llvm/Support/raw_ostream.h"
@@ -425,6 +426,10 @@ static const Value *stripCasts(const Value *v) {
   while (true) {
     if (auto *bc = dyn_cast<BitCastOperator>(v)) {
       v = bc->getOperand(0);
+      continue;
+    }
+    if (auto *ga = dyn_cast<GlobalAlias>(v)) {
+      v = ga->getAliasee();
       continue;
     }
     break;
